@@ -275,7 +275,15 @@ func (gatedDS) Load(ctx context.Context, headers http.Header, input []byte) ([]b
 	if s.mode == "sube2e" {
 		name = "load"
 	}
-	return s.gate(a, name)
+	data, err := s.gate(a, name)
+	// end to end a failure body is what the engine renders for a failed load
+	switch a.ans {
+	case "failbody":
+		return nil, upErr{a.id}
+	case "canbody":
+		return nil, a.ctx.Err()
+	}
+	return data, err
 }
 func (d gatedDS) LoadWithFiles(ctx context.Context, headers http.Header, input []byte, files []*httpclient.FileUpload) ([]byte, error) {
 	return d.Load(ctx, headers, input)
@@ -741,23 +749,22 @@ func runSchedule(mode string, reqs []reqSpec, o genOpts, choose func(opts []cmd)
 
 // ---------------------------------------------------------------- calibration of the failure body
 
-func calibrate() []byte {
+func calibrate(mode string) []byte {
+	if mode == "inb" {
+		mode = "inbe2e"
+	}
 	r := resolve.New(context.Background(), resolve.ResolverOptions{MaxConcurrency: 4, PropagateSubgraphErrors: true})
-	s := &sched{mode: "calib", res: r}
+	s := &sched{mode: mode, res: r}
 	base := context.WithValue(context.Background(), actorKey{}, 0)
 	cctx, cancel := context.WithCancel(base)
 	defer cancel()
-	a := &actor{id: 0, req: reqSpec{op: "query"}, resume: make(chan answer, 1), ctx: &actorCtx{cctx, 0}, cancel: cancel}
+	a := &actor{id: 0, req: reqSpec{op: "query", dedup: false}, resume: make(chan answer, 1), ctx: &actorCtx{cctx, 0}, cancel: cancel}
 	s.actors = []*actor{a}
 	cur = s
 	defer func() { cur = nil }()
 	a.resume <- answer{"errup"}
-	c := resolve.NewContext(a.ctx)
-	c.ExecutionOptions.DisableInboundRequestDeduplication = true
-	c.ExecutionOptions.DisableSubgraphRequestDeduplication = true
 	var out bytes.Buffer
-	s.mode = "inbe2e"
-	if _, err := r.ArenaResolveGraphQLResponse(c, s.response(a), &out); err != nil {
+	if _, err := r.ArenaResolveGraphQLResponse(s.resolveCtx(a), s.response(a), &out); err != nil {
 		panic(err)
 	}
 	return append([]byte(nil), out.Bytes()...)
@@ -911,12 +918,13 @@ func parseSx(s string) (sx, error) {
 	return item()
 }
 
-func replayLine(line string, fail []byte) (string, error) {
+func replayLine(line string, fails map[string][]byte) (string, error) {
 	x, err := parseSx(line)
 	if err != nil || !x.isl || len(x.list) < 4 || x.list[0].atom != "c11" {
 		return "", fmt.Errorf("not a c11 case: %v", err)
 	}
 	mode := x.list[1].atom
+	fail := fails[mode]
 	var reqs []reqSpec
 	for i, r := range x.list[2].list[1:] {
 		key, _ := strconv.Atoi(r.list[0].atom)
@@ -963,7 +971,7 @@ func main() {
 	}
 	args := common.Args(os.Args[2:])
 	resolve.SetVerifYield(yieldHook)
-	fail := calibrate()
+	fails := map[string][]byte{"inb": calibrate("inb"), "inbe2e": calibrate("inbe2e"), "sube2e": calibrate("sube2e")}
 	out := common.NewOut(args["out"])
 	defer out.Close()
 	switch os.Args[1] {
@@ -978,7 +986,7 @@ func main() {
 			if line == "" || strings.HasPrefix(line, "#") {
 				continue
 			}
-			res, err := replayLine(line, fail)
+			res, err := replayLine(line, fails)
 			if err != nil {
 				fmt.Fprintln(os.Stderr, err)
 				os.Exit(1)
@@ -992,8 +1000,9 @@ func main() {
 		r := common.NewRand(seed)
 		total := 0
 		emit := func(l string) { out.Line(l); total++ }
-		q := func(i, key int, op string, dedup bool) reqSpec { return mkReq(i, key, op, dedup, fail) }
 		for _, mode := range []string{"inb", "inbe2e", "sube2e"} {
+			fail := fails[mode]
+			q := func(i, key int, op string, dedup bool) reqSpec { return mkReq(i, key, op, dedup, fail) }
 			kinds := answersFor(mode)
 			// all schedules of two same-key queries, for every pair of planned answers, at most one cancellation
 			for _, k0 := range kinds {
